@@ -255,6 +255,11 @@ fn ty(rng: &mut Rng, depth: usize, p: &mut Planted) -> String {
             let mut inner = Planted::default();
             let q = ty(rng, d, &mut inner);
             p.absorb_decl(inner);
+            // (a qself without `as Trait` is a qself all the same: `<Vec<T>>::Item`)
+            if rng.chance(1, 4) {
+                p.forms.insert("qself-without-trait");
+                return format!("<{q}>::{}", name(rng));
+            }
             let tr = name(rng);
             p.ty.insert(tr.to_string());
             let args = if rng.coin() { generic_args(rng, d, p) } else { String::new() };
